@@ -139,6 +139,45 @@ def run(ctx):
             how = "BufWriter::into_inner()/flush() follows save_internal and its result is propagated"
         ctx.ob("R-ORDER", "final-flush|%s" % name, ok, how, b.where(),
                what="%s does not surface the BufWriter's final flush error" % name)
+    # (e) failure atomicity: what saving may change in the document itself.  A failed save must leave a document that a
+    # later save writes correctly, so state may not be taken out of the document across a fallible write.
+    ALLOWED_STORE = {("Document::write_cross_reference_stream", "max_id")}
+    ALLOWED_MUT_CALLEE = re.compile(r"^(object::)?Dictionary::(set|remove)$|::write_cross_reference_stream$|::write_trailer$")
+    nmut = 0
+    for p in sorted(sc):
+        b = F.bodies[p]
+        fn = F.canon_of(b)
+        for bi, si, st in b.stmts():
+            if "lhs" not in st:
+                continue
+            for e in st["lhs"]["p"]:
+                if isinstance(e, dict) and "f" in e and e.get("loc") and e["adt"].split("::")[-1] in ("Document", "IncrementalDocument"):
+                    nmut += 1
+                    t = b.rvname(st["rv"], 3)
+                    ok = (fn, e["n"]) in ALLOWED_STORE and re.match(r"^Add\(.*max_id,1\)$", t) is not None
+                    ctx.ob("R-WHO", "save-mutates|%s|%s" % (fn, e["n"]), ok, "%s.%s = %s is the reviewed id allocation for the cross-reference stream" % (fn, e["n"], t), b.where(st["ln"]),
+                           what="saving assigns Document.%s = %s in %s: state changed during save must survive a failed write unchanged (only `max_id += 1` is reviewed)" % (e["n"], t, fn))
+                    break
+            rv = st.get("rv")
+            if rv and rv["k"] == "ref" and rv.get("mut"):
+                hit = None
+                for e in rv["p"]["p"]:
+                    if isinstance(e, dict) and "f" in e and e.get("loc") and e["adt"].split("::")[-1] in ("Document", "IncrementalDocument"):
+                        hit = e
+                if hit is None or st["lhs"]["p"]:
+                    continue
+                for u in b.uses(st["lhs"]["l"]):
+                    nmut += 1
+                    if u["kind"] == "arg":
+                        c = b.callsite_at(u["bb"])
+                        cn = F.canon_of(F.bodies[c.name]) if c.name in F.bodies else (c.fn or c.name)
+                        ok = bool(ALLOWED_MUT_CALLEE.search(cn))
+                        ctx.ob("R-WHO", "save-mutates|%s|%s|%s" % (fn, hit["n"], cn), ok, "&mut %s is handed to %s" % (hit["n"], cn), b.where(st["ln"]),
+                               what="saving hands `&mut self.%s` to %s in %s: taking state out of the document (mem::take/replace/swap, drain, clear) across fallible writes leaves a failed save with a damaged document" % (hit["n"], cn, fn))
+                    elif u["kind"] not in ("drop",):
+                        ctx.ob("R-WHO", "save-mutates|%s|%s|%s" % (fn, hit["n"], u["kind"]), False, "", b.where(st["ln"]),
+                               what="saving keeps a mutable borrow of Document.%s in %s (%s): unreviewed mutation of the document during save" % (hit["n"], fn, u["kind"]))
+    ctx.floor("R-WHO", "document mutations during save", nmut, 9)
     ctx.assumptions += ["Write::write_all and write_fmt of std retry Interrupted and loop over short writes (their documented contract)",
                         "max_id < u32::MAX (documents with fewer than 2^32 objects)"]
 
